@@ -1484,6 +1484,12 @@ func (ctx Ctx) sliceRangeStmt(s *ast.RangeStmt) coq.Expr {
 }
 
 func (ctx Ctx) rangeStmt(s *ast.RangeStmt) coq.Expr {
+	// `for k, v = range x` assigns to existing variables; only the defining
+	// form (:=) is translated, as fresh binders
+	if s.Tok == token.ASSIGN {
+		ctx.unsupported(s, "range assigning to existing variables (use :=)")
+		return nil
+	}
 	switch ctx.typeOf(s.X).Underlying().(type) {
 	case *types.Map:
 		return ctx.mapRangeStmt(s)
